@@ -677,15 +677,21 @@ func ruleTextIdentity(p *Prog, l *Ledger, tier string) {
 		return
 	}
 	n := 0
-	for _, b := range fn.Blocks {
+	var blocks []*ssa.BasicBlock
+	for _, h := range p.Helpers(fn) {
+		if fnPkg(h) == p.LibSSA && h != str && FnName(h) != "Line.String" {
+			blocks = append(blocks, h.Blocks...)
+		}
+	}
+	for _, b := range blocks {
 		for _, ins := range b.Instrs {
 			bo, ok := ins.(*ssa.BinOp)
-			if !ok || bo.Op != token.EQL {
+			if !ok || (bo.Op != token.EQL && bo.Op != token.NEQ) {
 				continue
 			}
 			cx, okx := bo.X.(*ssa.Call)
 			cy, oky := bo.Y.(*ssa.Call)
-			if !okx || !oky {
+			if !okx || !oky || !isStringT(cx.Type()) || !isStringT(cy.Type()) {
 				continue
 			}
 			n++
@@ -714,6 +720,10 @@ func ruleTextIdentity(p *Prog, l *Ledger, tier string) {
 		}
 		key := rule + "|join|" + spec.fn
 		good, why := true, ""
+		if ok, what := builderJoin(f, spec.nonEmp); ok {
+			l.Prove(rule, spec.fn, key, "", spec.fn+" "+what)
+			continue
+		}
 		for _, b := range f.Blocks {
 			r, ok := b.Instrs[len(b.Instrs)-1].(*ssa.Return)
 			if !ok {
@@ -1241,4 +1251,87 @@ func relStr(m map[byte]bool) string {
 		}
 	}
 	return s + "}"
+}
+
+// builderJoin: f builds its result with a strings.Builder in one loop over the elements: every trip
+// writes the element's string (a WriteString whose block dominates the back edges), the function
+// returns that builder's String(), and – when a separator is required – a non-empty constant is
+// written on every trip but the first, decided by the loop's own counter (not by what has been
+// accumulated so far).
+func builderJoin(f *ssa.Function, needSep bool) (bool, string) {
+	isBuilderCall := func(ins ssa.Instruction, name string) (*ssa.Call, bool) {
+		c, ok := ins.(*ssa.Call)
+		if !ok {
+			return nil, false
+		}
+		sc := c.Call.StaticCallee()
+		return c, sc != nil && sc.String() == "(*strings.Builder)."+name
+	}
+	var ret *ssa.Call
+	for _, b := range f.Blocks {
+		r, ok := b.Instrs[len(b.Instrs)-1].(*ssa.Return)
+		if !ok {
+			continue
+		}
+		if len(r.Results) != 1 {
+			return false, ""
+		}
+		c, ok := isBuilderCall(instrOf(r.Results[0]), "String")
+		if !ok || ret != nil {
+			return false, ""
+		}
+		ret = c
+	}
+	if ret == nil {
+		return false, ""
+	}
+	bld := ret.Call.Args[0]
+	loops := loopsOf(f)
+	if len(loops) != 1 {
+		return false, ""
+	}
+	li := loops[0]
+	domLatches := func(b *ssa.BasicBlock) bool {
+		for _, lt := range li.latch {
+			if !b.Dominates(lt) {
+				return false
+			}
+		}
+		return true
+	}
+	elem, sep := false, false
+	for b := range li.blocks {
+		for _, ins := range b.Instrs {
+			c, ok := isBuilderCall(ins, "WriteString")
+			if !ok || c.Call.Args[0] != bld {
+				continue
+			}
+			if cs, isC := constStr(c.Call.Args[1]); isC {
+				if cs == "" {
+					continue
+				}
+				d := b.Idom()
+				if d == nil || !li.blocks[d] || !domLatches(d) {
+					return false, ""
+				}
+				ft := firstTripSucc(li, d)
+				if ft < 0 || len(d.Succs) != 2 || d.Succs[1-ft] != b || len(b.Preds) != 1 {
+					return false, ""
+				}
+				sep = true
+				continue
+			}
+			if !domLatches(b) {
+				return false, ""
+			}
+			elem = true
+		}
+	}
+	if !elem || (needSep && !sep) {
+		return false, ""
+	}
+	if needSep {
+		return true, "writes every element into a strings.Builder, with a constant separator before each but the first (decided by the loop counter)"
+	}
+	return true, "writes every element into a strings.Builder"
 }
